@@ -131,11 +131,15 @@ def mk_bar(b):
     from mingus.containers import Bar
     key, count, unit, entries = b
     bar = Bar(key, (count, unit))
-    for v, ns in entries:
-        ok = bar.place_rest(v) if ns is None else bar.place_notes(mk_nc(ns), v)
+    for e in entries:
+        v, ns = e[0], e[1]
+        nc = None if ns is None else mk_nc(ns)
+        if len(e) > 2 and nc is not None:
+            nc.bpm = e[2]                      # a tempo-changing container (sequencer)
+        ok = bar.place_rest(v) if nc is None else bar.place_notes(nc, v)
         if not ok:
             # the generator only produces fills that fit; whatever the bar thinks, the writer is given these entries
-            bar.bar.append([bar.current_beat, v, None if ns is None else mk_nc(ns)])
+            bar.bar.append([bar.current_beat, v, nc])
     return bar
 
 def mk_track(t):
